@@ -46,10 +46,11 @@ TERMINATIONS = [
     ("UserBase", lambda: UserBase("b"), False),
 ]
 
-state = {"text": "", "term": 0, "raised": None, "close": False}
+state = {"text": "", "term": 0, "raised": None, "close": False, "calls": 0}
 
 
 def fake_exec(code, data):
+    state["calls"] += 1
     sys.stdout.write(state["text"])
     if state["close"]:
         sys.stdout.close()          # a student program may close (or `with`-manage) the stream it was given
@@ -101,3 +102,19 @@ def enter(sb, entry):
     if entry == 1:
         return sb.call("f")
     return sb.evaluate("1")
+
+
+def stub_reached(before):
+    """False when pedal no longer routes student code through the stubbed `exec` (call site moved): the harness then
+    reports 'stub_dead' instead of judging anything."""
+    return state["calls"] > before
+
+
+def stub_canary():
+    """Run natively by the runner before anything else: True iff pedal still routes student code through the stubbed
+    `exec` name and captures what the stub wrote."""
+    r, sb = fresh()
+    before = state["calls"]
+    state["term"], state["text"] = 0, "x"
+    sb.run()
+    return state["calls"] == before + 1 and sb.raw_output == "x"
